@@ -161,11 +161,12 @@ partial def closeOver {α : Type} [BEq α] (adj : α → α → Bool) (U : List 
 
 /-- The vertices whose fan graph (faces at `v`, adjacent when they share an edge) is disconnected. -/
 def specSingular (ts : List Tri) : List Nat :=
+  let fs := enum ts
   sortNats ((verts ts).filter fun v =>
-    match trisAt v ts with
+    match facesAt v fs with
     | [] => false
     | t :: rest =>
-      let reach := closeOver sharesEdge (t :: rest) [t]
+      let reach := closeOver fanAdj (t :: rest) [t]
       !(t :: rest).all reach.contains)
 
 /-- Components of `U` under `adj` by naive closure. -/
